@@ -749,23 +749,46 @@ func (g *gen) mutation() []*hop {
 	return nil
 }
 
+// pickAddr prefers addresses whose layout lets the request succeed (so that the cached path and the
+// effect of later changes are exercised), then any address of the directory, then unknown ones
+func (g *gen) pickAddr() []byte {
+	r := g.r
+	x := r.Intn(100)
+	if x < 55 {
+		var good [][]byte
+		for _, a := range g.known {
+			l := g.layout[hex.EncodeToString(a)]
+			if strings.HasPrefix(l, "good") || strings.HasPrefix(l, "empty-password-good") || strings.HasPrefix(l, "no-password-file-default-key") {
+				good = append(good, a)
+			}
+		}
+		if len(good) > 0 {
+			return good[r.Intn(len(good))]
+		}
+	}
+	if x < 93 {
+		return g.known[r.Intn(len(g.known)-1)] // the last entry of known has no file
+	}
+	if x < 98 {
+		return g.known[len(g.known)-1]
+	}
+	return r.Bytes(20)
+}
+
 func (g *gen) buildHistory() {
 	r := g.r
 	c := g.c
 	c.Hist = append(c.Hist, &hop{Op: "refresh"}, &hop{Op: "accounts"})
 	n := 8 + r.Intn(10)
 	// requests concentrate on few addresses so that repeats (cached path) are frequent
-	focus := g.known[r.Intn(len(g.known))]
+	focus := g.pickAddr()
 	for i := 0; i < n; i++ {
 		x := r.Intn(100)
 		switch {
 		case x < 62:
 			a := focus
 			if r.Intn(3) == 0 {
-				a = g.known[r.Intn(len(g.known))]
-			}
-			if r.Intn(25) == 0 {
-				a = r.Bytes(20)
+				a = g.pickAddr()
 			}
 			c.Hist = append(c.Hist, g.request(a))
 		case x < 70:
@@ -782,11 +805,11 @@ func (g *gen) buildHistory() {
 				c.Hist = append(c.Hist, &hop{Op: "refresh"})
 			}
 		default:
-			focus = g.known[r.Intn(len(g.known))]
+			focus = g.pickAddr()
 		}
 	}
 	c.Hist = append(c.Hist, &hop{Op: "refresh"}, &hop{Op: "accounts"})
-	for _, a := range g.known {
+	for _, a := range g.known[:len(g.known)-1] {
 		if r.Intn(2) == 0 {
 			c.Hist = append(c.Hist, &hop{Op: "getwf", Addr: a, Want: a})
 		}
